@@ -86,12 +86,14 @@ def canon(s: Any, self_name: str = "self") -> List[Tuple[Any, ...]]:
                     out.append(("TEXT", "REPRHTML", tuple(f.c or ()), _recv(p)))
                 else:
                     out.append(("CALL", q, tuple(f.c or ())))
+            elif isinstance(d, tuple) and d and d[0] == "join" and d[1] == "" and isinstance(f.b, dict) and "over" in f.b:
+                out.append(("JOINMAP", f.b))
             else:
                 out.append(("OP", _plain(d), tuple(f.c or ())))
         elif f.kind == "ACC":
             out.append(("ACC", f.a))
         elif f.kind == "LOOP":
-            out.append(("LOOP", f.b, f.a[1] if isinstance(f.a, tuple) else f.a))
+            out.append(("LOOP", f.b, tuple(f.a) if isinstance(f.a, tuple) else f.a))
         else:
             out.append((f.kind, repr(f.a)))
     return out
@@ -243,20 +245,35 @@ def extract(prog: Program) -> Model:
     cfg3.loop_effects = False
     m.frame_leaves = I.run_function(CORE, "Tag.get_html_string", _tag_args, cfg3)
 
-    # ---- attribute loop body ---------------------------------------------------------------------------------
-    from .eval_stmt import loops_of
-    loops = loops_of(fn_tag)
-    for idx, lp in enumerate(loops):
+    # ---- loop bodies reached while building the frame (the attribute writer, wherever it lives) ------------------
+    keys = []
+    for l in m.frame_leaves:
+        for rec in l.run.loops:
+            k = rec.__dict__.get("loop_key")
+            if k is not None and k not in keys:
+                keys.append(k)
+    for key in keys:
         cfg4 = Config()
         cfg4.opaque = set(OPAQUE) - {"Tag.get_html_string"}
-        cfg4.stop_at_loop = ("Tag.get_html_string", idx)
+        cfg4.stop_at_loop = key
         for l in I.run_function(CORE, "Tag.get_html_string", _tag_args, cfg4):
             rec4 = getattr(l.run, "stop_loop_record", None)
             if rec4 is None:
                 continue
-            m.attr_rows.append({"loop": idx, "leaf": l, "iter": norm(lp.iter) if isinstance(lp, ast.For) else "while",
+            lp = rec4.node
+            m.attr_rows.append({"loop": key, "leaf": l, "iter": norm(lp.iter) if isinstance(lp, ast.For) else "while",
                                 "iter_value": rec4.iter_value, "env": l.env, "carried": rec4.carried,
-                                "outcome": l.kind})
+                                "outcome": l.kind, "start": rec4.__dict__.get("body_effect_start", 0)})
+    # "".join(<piece> for key, val in self.attrs.items()) - the attribute writer as a comprehension
+    for l in m.frame_leaves:
+        if l.kind != "return" or not isinstance(l.value, SStr):
+            continue
+        for f in l.value.frags:
+            if f.kind == "OP" and isinstance(f.a, tuple) and f.a[:2] == ("join", "") and isinstance(f.b, dict) and "over" in f.b:
+                pay = f.b
+                m.attr_rows.append({"loop": "join", "leaf": l, "iter": short(pay["over"]), "iter_value": pay["over"], "env": {}, "carried": [],
+                                    "outcome": "fall", "start": 0, "tokens": canon(pay["item"]) if isinstance(pay.get("item"), SStr) else [("NONSTRING",)],
+                                    "var": pay.get("var")})
     m.stats = {"sibling_rows": len(m.sib_rows), "frame_leaves": len(m.frame_leaves), "attr_rows": len(m.attr_rows)}
     return m
 
@@ -307,6 +324,15 @@ def _classify_atom(atom: Any, el: SObj) -> Optional[Tuple[Any, ...]]:
         return ("carried", name)
     if tag == "param":
         return ("param", atom[1])
+    if tag == "cmp" and len(atom) == 4:
+        l, r = getattr(atom[2], "v", atom[2]), getattr(atom[3], "v", atom[3])
+        flip = {"<": ">", "<=": ">=", ">": "<", ">=": "<="}
+        for a, b, op in ((l, r, atom[1]), (r, l, flip.get(atom[1], atom[1]))):
+            if isinstance(a, SInt) and "@" in a.base and isinstance(b, int) and not isinstance(b, bool):
+                # a loop-carried counter compared with a constant (offset folded into the constant)
+                return ("carried-int", a.base.split("@")[0], op, b - a.off)
+    if tag == "nonzero" and isinstance(atom[1], str) and "@" in atom[1] and "+" not in atom[1] and "-" not in atom[1].split("@")[0]:
+        return ("carried-int", atom[1].split("@")[0], "!=", 0)
     if tag in ("isinstance", "kind", "kindgroup", "is", "truthy-kind") and len(atom) > 1 and atom[1] == el.uid:
         return None  # subsumed by the element's final kind set
     if tag == "attr" and atom[1] == el.uid:
@@ -317,6 +343,14 @@ def _classify_atom(atom: Any, el: SObj) -> Optional[Tuple[Any, ...]]:
 def _next_value(v: Any, name: str, el: SObj) -> Any:
     if isinstance(v, bool):
         return ("const", v)
+    if isinstance(v, int):
+        return ("const", 0 if v == 0 else "pos" if v > 0 else v)
+    if isinstance(v, SInt) and "@" in v.base:
+        src = v.base.split("@")[0]
+        if v.off == 0:
+            return ("same",) if src == name else ("carried", src)
+        if v.off > 0 and src == name:
+            return ("const", "pos")
     if isinstance(v, SBool):
         a = v.atom
         if isinstance(a, tuple) and a[0] == "carried" and a[1].split("@")[0] == name:
@@ -370,6 +404,8 @@ def initial_state(m: Model, params: Dict[str, Any]) -> Dict[str, Any]:
         v = m.sib_init.get(c)
         if isinstance(v, bool):
             st[c] = v
+        elif isinstance(v, int):
+            st[c] = 0 if v == 0 else "pos" if v > 0 else v     # counters are tracked as {0, >=1}
         elif isinstance(v, SBool) and isinstance(v.atom, tuple) and v.atom[0] == "param":
             st[c] = params[v.atom[1]]
         else:
@@ -384,7 +420,23 @@ def sib_matches(m: Model, state: Dict[str, Any], child: Child, params: Dict[str,
             continue
         ok = True
         for k, v in r.cond.items():
-            if k[0] == "carried":
+            if k[0] == "carried-int":
+                cur = state.get(k[1])
+                op, c = k[2], k[3]
+                import operator as _o
+                f = {"==": _o.eq, "!=": _o.ne, "<": _o.lt, "<=": _o.le, ">": _o.gt, ">=": _o.ge}[op]
+                if cur == 0:
+                    truth = f(0, c)
+                elif cur == "pos":
+                    lo, hi = f(1, c), f(10 ** 9, c)
+                    if lo != hi or (op in ("==", "!=") and c >= 1):
+                        raise Unmodelled(f"TagList.get_html_string: counter `{k[1]}` compared as {op} {c}: needs more than {{0, >=1}}")
+                    truth = lo
+                else:
+                    raise Unmodelled(f"TagList.get_html_string: counter state {cur!r}")
+                if truth is not bool(v):
+                    ok = False
+            elif k[0] == "carried":
                 if state.get(k[1]) is not v:
                     ok = False
             elif k[0] == "param":
